@@ -77,7 +77,8 @@ def snapshot(tree):
         if ty is n:
             ty = None
         if ty is not None and not isinstance(ty, tuple):
-            ty = _struct(ty, ids=False, root_parent=False) if isinstance(ty, Expr) else ("non-expr", repr(ty))
+            # the type is itself a tree that travels through dump/load: same (strict) records, recursively
+            ty = ("T", snapshot(ty)) if isinstance(ty, Expr) else ("non-expr", repr(ty))
         comments = tuple(n.comments) if n.comments is not None else None
         recs.append((type(n).__name__, tuple(args), ty, comments, repr(n._meta) if n._meta is not None else None, (holder is not None and pos[id(holder)], k, i)))
     return tuple(recs)
@@ -87,6 +88,8 @@ def lax(recs):
     out = []
     for cls, args, ty, comments, meta, where in recs:
         args = tuple(a for a in args if not (a[1] == "S" and a[2] == ("NoneType", "None")) and not (a[1] == "L" and not a[2]))
+        if isinstance(ty, tuple) and ty and ty[0] == "T":
+            ty = ("T", lax(ty[1]))
         out.append((cls, args, ty, comments or None, None if meta in (None, "{}") else meta, where))
     return tuple(out)
 
@@ -333,7 +336,9 @@ def work_class(name):
         if invalid:
             st["invalid"] = st.get("invalid", 0) + 1
         inp = {"kind": "class", "class": name, "value": kind, "args": sorted(kwargs), "decorate": decorate}
-        evaluate(t, (lambda cls_name, kind=kind: kind), DIALECTS8[:3], False, inp, st, informational=non_parser or invalid, info_prefix="invalid-tree:" if invalid and not non_parser else "")
+        absent_like = kind in ("none", "empty-list")
+        prefix = "invalid-tree:" if invalid and not non_parser else ("none-vs-absent:" if absent_like and not non_parser else "")
+        evaluate(t, (lambda cls_name, kind=kind: kind), DIALECTS8[:3], False, inp, st, informational=non_parser or invalid or absent_like, info_prefix=prefix)
         st["nontrivial"] += 1
     return finish(st)
 
